@@ -29,7 +29,7 @@ Supps == {Supp(sts) : sts \in UNION {[1..n -> {"val", "sup"} \X SLeaf] : n \in 1
 Rec(arg, c) == [k |-> "rec", v |-> <<>>, e |-> "-", name |-> "", args |-> <<>>, fin |-> [t |-> "none", id |-> 0, c |-> "-"],
                 arg |-> arg, kk |-> [id |-> 30, c |-> c], ks |-> <<>>, xs |-> <<>>, steps |-> <<>>, fid |-> 0, mode |-> "-", pv |-> "-", id |-> 0]
 Recs == {Rec(a, c) : a \in L0, c \in Conts}
-Panics == {[Node EXCEPT !.k = "panic", !.mode = m, !.pv = pv, !.id = 40] : m \in {"panic", "ok", "err"}, pv \in {"boom", "7", "errval"}}
+Panics == {[Node EXCEPT !.k = "panic", !.mode = m, !.pv = pv, !.id = 40] : m \in {"panic", "ok", "err"}, pv \in {"s:boom", "i:7", "e:errval"}}
 \* one level of nesting: operands that are themselves combinators with callbacks
 Nested == {All(<<a, b>>, [t |-> "pure", id |-> 1, c |-> "-"]) : a \in {Chain(x, <<c>>) : x \in {Unit(<<1>>), Bad("e1")}, c \in {"kinc", "kfail"}},
                                                                b \in {Chain(x, <<c>>) : x \in {Unit(<<2>>)}, c \in {"kdup", "kfail"}}}
